@@ -53,7 +53,7 @@ def gen_base(rng, n, subst=None, site=None, rooting=None, reversible=False):
     tree = G.shuffle_children(rng, G.random_topology(rng, names))
     nsites = rng.randint(4, 8) if dt != "codon" else rng.randint(2, 3)
     if dt == "nucleotide":
-        seqs = G.random_alignment(rng, names, nsites, G.NUC18, "ACGT", lower=True)
+        seqs = G.random_alignment(rng, names, nsites, G.NUC18, "ACGT", lower=True, special=rng.random() < 0.6)
     elif dt == "aa":
         seqs = G.random_alignment(rng, names, nsites, G.AA_ALL, G.AA20, p_amb=0.15)
     else:
